@@ -30,7 +30,7 @@ type lockHeld struct{ name, base, mode string }
 
 type access struct {
 	fn, field, rw, base string
-	held               []lockHeld
+	held                []lockHeld
 }
 
 func exprText(e ast.Expr) string {
